@@ -39,7 +39,7 @@ class Gen:
     """random component factory; keeps an estimate of every component's output voltage so that
     parameters stay in a physically sensible range"""
 
-    def __init__(self, rng, tables=0.25, neg=0.15, zero_src=0.0, limits=None, small_rs=False):
+    def __init__(self, rng, tables=0.25, neg=0.15, zero_src=0.0, limits=None, small_rs=False, overload=0.0):
         self.rng = rng
         self.vest = {}
         self.p_tables = tables
@@ -47,6 +47,7 @@ class Gen:
         self.p_zero = zero_src
         self.limits = limits
         self.small_rs = small_rs
+        self.overload = overload     # probability that a component is made an overload (huge load / series resistance)
 
     def vin_of(self, parents):
         for p in parents:
@@ -131,6 +132,19 @@ class Gen:
                     g0 = _lg(rng, 1e-7, 1e-3)
                     P["ig"] = table(rng, "ig", lambda io, vi: g0 * (1 + io / imax) * (1 + 0.01 * vi), av, imax)
             self.vest[name] = abs(vin)
+        if self.overload and rng.random() < self.overload:
+            f = 10 ** rng.uniform(1, 4)
+            if cls == "PLoad":
+                P["pwr"] = _r(P["pwr"] * f, 4)
+            elif cls == "ILoad":
+                P["ii"] = _r(P["ii"] * f, 4)
+            elif cls == "RLoad":
+                P["rs"] = _r(P["rs"] / f, 4) or 1e-3
+            elif cls in ("RLoss", "PSwitch", "Source") or (cls == "PMux" and not isinstance(P["rs"], list)) \
+                    or (cls == "Rectifier" and "rs" in P):
+                P["rs"] = _r((P["rs"] or 0.05) * f, 4)
+            elif cls == "VLoss" and not isinstance(P["vdrop"], dict):
+                P["vdrop"] = _r((P["vdrop"] or 0.1) * f, 4)
         lim = self.limits(cls, name, rng) if self.limits else None
         return {"cls": cls, "name": name, "params": P, "limits": lim}
 
